@@ -377,6 +377,23 @@ func runC14(c *Ctx) {
 		c.Check(bad == "", "C14.R1", "FileRuleList.RetrieveRule: Seek and every read of the shared file/buffer inside one hold of the list mutex", frl.Pos(), fmt.Sprintf("%d uses of File/buffer, all under the same acquire", len(ops)), bad)
 	}
 
+	// ---------- R6: what a list's mutex guards belongs to that list ----------
+	{
+		c.Rule("C14.R6", "EFF", "the read buffer guarded by a file list's mutex is allocated for that list alone", 0)
+		e := effOf(c)
+		ws := fieldWrites(c.P, "filterlist", "FileRuleList", "buffer")
+		for _, w := range ws {
+			st, ok := w.Instr.(*ssa.Store)
+			if !ok {
+				continue
+			}
+			e.cur = w.Fn
+			e.memo = map[ssa.Value]int{}
+			c.Check(e.fresh(st.Val), "C14.R6", shortFn(w.Fn)+": FileRuleList.buffer is a fresh allocation", w.Instr.Pos(), "allocated where it is stored",
+				"the buffer stored into the list is not allocated for it (a package-level or otherwise shared buffer): the mutex is per list, so retrievals from two lists overwrite each other's bytes and cache the wrong rule")
+		}
+	}
+
 	// ---------- R2 / R3 ----------
 	nAcq := 0
 	for _, fn := range fns {
